@@ -546,7 +546,10 @@ def check(prop, tier):
                 other[v["prop"] + "/" + v["clause"]] = other.get(v["prop"] + "/" + v["clause"], 0) + v["count"]
     exhaustive = (not any(m["deadline_hit"] for m in allm) and tot["capped_configs"] == 0 and tot["infra_errors"] == 0
                   and tot["configs_done"] == tot["configs_total"] and tot["trace_overflow"] == 0 and tot["replay_mismatch"] == 0 and not errs_all
-                  and sum(m["real_exec_mismatch"] + m["free_run_mismatch"] for m in allm) == 0)
+                  and sum(m["real_exec_mismatch"] + m["free_run_mismatch"] for m in allm) == 0 and not unknown_syms)
+    if unknown_syms:
+        # a libc entry point the controlled layer does not interpose: its answers are not enumerated, its effects not in the ledgers
+        sys.stderr.write("UNMODELLED: the library now reaches libc symbol(s) %s that /verif/vk does not interpose; exhaustive=false for %s\n" % (", ".join(unknown_syms), prop))
     samples = []
     for m in allm:
         for s in m["samples"][:3]:
